@@ -409,7 +409,7 @@ func c10AEAD(p *ana.Prog, r *ana.Result) {
 	if len(se) == 1 && len(op) == 1 {
 		sa, oa := se[0].Common().Args, op[0].Common().Args
 		adNil := ana.IsNilConst(sa[3]) && ana.IsNilConst(oa[3])
-		okS := strings.HasSuffix(ana.AccessPath(sa[1]), "ecookie.Nonce") || ana.AccessPath(sa[1]) != ""
+		okS := true // that the sealing nonce is the one stored in the cookie is the cookie-fields obligation below
 		// plaintext = c.Encode()
 		ptOK := false
 		if c, _ := ana.CallOf(sa[2]); c != nil && ana.CalleeName(c.Common()) == ana.Q("(*net/ntske.ServerCookie).Encode") && ana.AccessPath(c.Common().Args[0]) == "c" {
@@ -428,12 +428,28 @@ func c10AEAD(p *ana.Prog, r *ana.Result) {
 			if !ok {
 				return
 			}
-			switch ana.AccessPath(st.Addr) {
-			case "ecookie.Nonce":
-				nonceStored = true
-			case "ecookie.Ciphertext":
+			// a field of a local EncryptedServerCookie, whatever the variable is called
+			// (a composite literal is such a local too)
+			fa, ok := st.Addr.(*ssa.FieldAddr)
+			if !ok || typeNameOf(fa.X.Type()) != "EncryptedServerCookie" {
+				return
+			}
+			if _, isLocal := rootAlloc(fa.X).(*ssa.Alloc); !isLocal {
+				return
+			}
+			switch fieldNameOf(fa.X.Type(), fa.Field) {
+			case "Nonce":
+				// the nonce stored is the nonce sealed with
+				if st.Val == sa[1] {
+					nonceStored = true
+				} else if ld, ok := sa[1].(*ssa.UnOp); ok && ld.Op == token.MUL {
+					if fb, ok := ld.X.(*ssa.FieldAddr); ok && fb.X == fa.X && fb.Field == fa.Field {
+						nonceStored = true
+					}
+				}
+			case "Ciphertext":
 				ctStored = st.Val == ssa.Value(se[0].(*ssa.Call))
-			case "ecookie.ID":
+			case "ID":
 				idStored = ana.AccessPath(ana.StripConv(st.Val)) == "keyid"
 			}
 		})
